@@ -85,7 +85,7 @@ def trace(draw, tier):
     c = {"tps": tps, "arrivals": arr, "rows": rows, "tool": tool}
     if tool == "jitter":
         c["delta"] = draw(st.sampled_from([0.1, 1.0 / tps, 0, 0.0, 1e-10, 2.5, 1e-3, 30]))
-        c["seed"] = draw(st.sampled_from([0, 1, 42, 7, 123456]))
+        c["seed"] = draw(st.sampled_from([0, 42, 1, 42, 7, 123456]))
     return c
 
 
@@ -232,6 +232,16 @@ def run_case(spec):
             t1, t2 = open(fo1).read(), open(fo2).read()
             if t1 != t2:
                 P("C20:jitter-not-reproducible", f"two runs with seed {seed} differ")
+            if seed == 42:
+                # the command line documents "Random seed (default: 42)": leaving -s out is the run with seed 42
+                out.label("jitter_default_seed")
+                try:
+                    run_tool(["tools", "jitter", fin, fo2, repr(float(delta)), "-f"])
+                except (Exception, SystemExit) as e:
+                    P("C20:jitter-raised", f"{type(e).__name__}: {e}")
+                    return out
+                if open(fo2).read() != t1:
+                    P("C20:jitter-not-reproducible", f"`tools jitter` without -s (documented default seed 42) differs from the run with -s 42 (delta {delta})")
             r1 = rows_of(t1)
             by_pid_in = {}
             for r in rin:
